@@ -507,13 +507,8 @@ def _(c):
 # ---- encode_number: the base-128 sub-identifier of X.690 8.19.2 in closed form ---------------------------------------------
 # Q128(n, k) = n // 128**k (the number left after dropping k base-128 digits).  A spec function given by its recurrence;
 # only ground instances of the two defining equations are ever supplied (q128_facts), as for b128 above.
-Q128 = _z3.Function("q128", _sym.I, _sym.I, _sym.I)
-
-
-def q128(n, k):
-    if isinstance(n, int) and isinstance(k, int):
-        return n // (128 ** k) if k >= 0 else n
-    return _SInt(Q128(_T(n), _T(k)))
+Q128 = S.Q128
+q128 = S.q128
 
 
 def q128_facts(ex, n, *ks):
@@ -552,7 +547,7 @@ def _digits_inv(digits, n0, g):
 @contract("ecdsa.der.encode_number", props=["C11", "C09"], n=Int)
 def _(c):
     from pyvc.sym import llen
-    c.theories = {"list"}
+    c.theories = {"list", "b128"}
     c.requires(lambda n: n >= 0)                     # a negative n never leaves the loop (n >> 7 stays -1): outside the codec's domain
     c.returns(lambda ex: ex.fresh_bytes("subid"))
 
@@ -562,6 +557,31 @@ def _(c):
                     _digits_inv(b128_digits, old_n, _g))
     c.loop(0, invariant=[inv], decreases=lambda n: n, ghost={"_g": (lambda: 0, lambda _g: _g + 1)})
     c.ensures(lambda ex, n, result: (q128_facts(ex, n, 0, blen(result), blen(result) - 1), is_subid(result, n))[1], "is-the-X.690-subidentifier")
+    # the same, as an equation with the spec function (what callers use): needs the uniqueness axiom of the digit count
+    c.ensures(lambda ex, n, result: (q128_facts(ex, n, 0, blen(result), blen(result) - 1), beq(result, S.subid(n)))[1], "equals-spec-subid")
+
+
+def _oid_first_ok(first, second):
+    return Or_(And_(0 <= first, first < 2, 0 <= second, second <= 39), And_(eq(first, 2), 0 <= second))
+
+
+def _pieces(k):
+    return lambda ex, n: tuple(ex.fresh_int("arc%d" % (i + 2)) for i in range(k))
+
+
+@contract("ecdsa.der.encode_oid", props=["C11", "C09"], first=Int, second=Int, pieces=_pieces(2))
+def _(c):
+    # the arity of *pieces is fixed per case (0..4 further arcs: every OID of the curve table has at most 7 arcs after the
+    # first two - those are covered by the closed-term check of C09 and the bounded stand-in); the arcs themselves are arbitrary
+    for k in range(0, 5):
+        c.case(str(k), pieces=_pieces(k))
+    c.theories = {"b128"}
+    c.requires(lambda pieces: And_(*[p >= 0 for p in pieces]) if pieces else True)
+    c.requires(lambda first, second, pieces: S.subid_len(40 * first + second) + sum(S.subid_len(p) for p in pieces) < 256 ** 126)
+    c.raises("AssertionError", only_if=lambda first, second: Not_(_oid_first_ok(first, second)))
+    c.returns(lambda ex: ex.fresh_bytes("enc"))
+    c.ensures(lambda first, second, pieces, result: And_(_oid_first_ok(first, second),
+                                                          beq(result, S.tlv(0x06, cat(S.subid(40 * first + second), *[S.subid(p) for p in pieces])))), "canonical")
 
 
 def _num_domain(tier, seed):
